@@ -358,10 +358,16 @@ def rng_scan(model, cg, scope=PKG):
             continue
         if is_np:
             conds = [(ast.unparse(c), p) for c, p, _ in astq.path_conditions(fi, call)]
+            sg = seeded_generator(fi, call)
             if fi.name == "__init__" and ("entropy is None", True) in conds and text.endswith("randint"):
                 out.append((fi, call, True, "tabled: default entropy when the caller gives none"))
+            elif sg is not None:
+                names = astq.names_loaded(sg[1]) - {"int", "float"}
+                ok = bool(names) and names <= set(fi.params)
+                out.append((fi, call, ok, f"numpy generator constructed from the seed `{ast.unparse(sg[1])}`" if ok else
+                            f"numpy generator seeded with `{ast.unparse(sg[1])}`, which is not a function of the seed parameter only"))
             else:
-                out.append((fi, call, False, "draws from numpy's / Python's global RNG"))
+                out.append((fi, call, False, "draws from numpy's / Python's global RNG (or builds an unseeded generator)"))
             continue
         gen = astq.kwarg(call, "generator")
         if gen is None:
@@ -372,23 +378,48 @@ def rng_scan(model, cg, scope=PKG):
     return out
 
 
-def _generator_seeded(fi, gen):
-    """generator expression traces to torch.Generator(...).manual_seed(<seed derived from a parameter>)"""
-    expr = gen
-    if isinstance(expr, ast.Name):
-        binds = [v for _, v in astq.assignments_to(fi, expr.id)]
-        if len(binds) != 1 or binds[0] is None:
-            return False, f"generator `{expr.id}` is not bound exactly once"
-        expr = binds[0]
+NUMPY_BITGENS = ("PCG64", "PCG64DXSM", "Philox", "SFC64", "MT19937")
+
+
+def seeded_generator(fi, expr):
+    """(kind, seed expression) if `expr` constructs a random generator from an explicit seed:
+    torch.Generator(...).manual_seed(s); np.random.Generator(np.random.<BitGen>(s)); np.random.<BitGen>(s);
+    np.random.default_rng(s); np.random.RandomState(s).  Otherwise None."""
     if isinstance(expr, ast.Call) and isinstance(expr.func, ast.Attribute) and expr.func.attr == "manual_seed" \
-            and isinstance(expr.func.value, ast.Call) and astq.call_name(expr.func.value) == "torch.Generator" \
-            and expr.args:
-        names = astq.names_loaded(expr.args[0]) - {"int", "float"}
-        params = set(fi.params)
-        if names and names <= params:
-            return True, f"torch.Generator(...).manual_seed({ast.unparse(expr.args[0])}) from parameter(s) {sorted(names)}"
-        return False, f"seed `{ast.unparse(expr.args[0])}` is not a function of the seed parameter only"
-    return False, f"generator `{ast.unparse(expr)[:50]}` is not torch.Generator(...).manual_seed(seed)"
+            and isinstance(expr.func.value, ast.Call) and astq.call_name(expr.func.value) == "torch.Generator" and expr.args:
+        return "torch", expr.args[0], expr.func.value
+    if isinstance(expr, ast.Call):
+        nm = astq.call_name(expr) or ""
+        tail = nm.split(".")[-1]
+        if nm.startswith(("np.random.", "numpy.random.")):
+            if tail == "Generator" and expr.args:
+                inner = seeded_generator(fi, expr.args[0])
+                return inner if inner and inner[0] == "numpy" else None
+            if tail in NUMPY_BITGENS + ("default_rng", "RandomState") and (expr.args or expr.keywords):
+                seed = expr.args[0] if expr.args else expr.keywords[0].value
+                return "numpy", seed, expr
+    return None
+
+
+def _generator_seeded(fi, gen):
+    """generator expression traces (through every binding of a local name) to a generator constructed from a seed that is
+    a function of the function's parameters only"""
+    exprs = [gen]
+    if isinstance(gen, ast.Name):
+        binds = [v for _, v in astq.assignments_to(fi, gen.id)]
+        if not binds or any(b is None for b in binds):
+            return False, f"generator `{gen.id}` is not bound by plain assignments"
+        exprs = binds
+    whys = []
+    for expr in exprs:
+        sg = seeded_generator(fi, expr)
+        if sg is None:
+            return False, f"generator `{ast.unparse(expr)[:50]}` is not constructed from an explicit seed"
+        names = astq.names_loaded(sg[1]) - {"int", "float"}
+        if not (names and names <= set(fi.params)):
+            return False, f"seed `{ast.unparse(sg[1])}` is not a function of the seed parameter only"
+        whys.append(f"{sg[0]} generator seeded with {ast.unparse(sg[1])}")
+    return True, "; ".join(whys)
 
 
 def r05_4(ctx, model=None, fixture=False):
